@@ -8,7 +8,7 @@ from .history import run_history, history_candidates, describe_history
 from ..engine import Outcome
 
 OPT_ATOMS = ["plat", "shift", "posix", "posixleak", "alloca", "incdiv", "incast", "cstyle", "aiob", "zerodiv", "unread",
-             "constparam", "ptrcast", "known", "nullred", "aiobcond", "uninit", "byvalue", "postfix", "member"]
+             "constparam", "ptrcast", "known", "nullred", "aiobcond", "uninit", "byvalue", "postfix", "member", "branches", "branches"]
 
 
 class C19(PropBase):
